@@ -481,6 +481,12 @@ pub fn run(cfg: &Cfg, rep: &mut Rep) {
         let tail = if k % 3 == 0 { " TAI" } else { "" };
         for (hh, mm, what) in [(24u32, 0u32, "offset hours"), (99, 0, "offset hours"), (1, 60, "offset minutes"), (0, 99, "offset minutes"), (23, 60, "offset minutes")] {
             check_out_of_range_text(rep, &format!("{base}{sg}{:02}:{:02}{tail}", hh, mm), None, what);
+            // the same offset in the other spellings people write (ISO 8601 basic +HHMM, one-digit hours, blanks, seconds
+            // appended): whether a parser knows the spelling or not, an out-of-range field in it never yields an epoch
+            for alt in [format!("{sg}{:02}{:02}", hh, mm), format!("{sg}{:02}{:02}Z", hh, mm), format!(" {sg}{:02}:{:02}", hh, mm), format!("{sg}{:02}:{:02}:00", hh, mm), format!("{sg}{:02}.{:02}", hh, mm), format!("{sg}{:02}h{:02}", hh, mm)] {
+                check_out_of_range_text(rep, &format!("{base}{alt}{tail}"), None, what);
+                check_out_of_range_text(rep, &format!("{base}.25{alt}{tail}"), None, what);
+            }
             // (Format::parse does not read %z offsets at all - known finding F24 - so only the ISO parsers are judged here)
         }
         // day-of-year formats
@@ -575,6 +581,57 @@ pub fn run(cfg: &Cfg, rep: &mut Rep) {
                 for tail in ["", "?", " %Y", "-%d %H"] {
                     let f = format!("{prefix}%{}{tail}", c as char);
                     feed(rep, "2022-01-01T10:20:30", &f, "fmt/letter-at-fill-level", true);
+                }
+            }
+        }
+    }
+    // formats that fill the fixed-size item table (and one short of it / beyond it), with and without a separator after the
+    // last token, read against the formatter's own output with every kind of ending: complete, cut short, the closing
+    // character replaced or followed by something else. A look-ahead or look-behind by one item is in range everywhere but here.
+    if !cfg.fuzz {
+        let cyc = ["%Y", "%m", "%d", "%H", "%M", "%S", "%j", "%f", "%y"];
+        let seps = ['-', '-', ' ', ':', ':', ' ', '/', '.', ' '];
+        let mut li = 0usize;
+        for ntok in 13..=18usize {
+            for var in 0..3usize {
+                for last_sep in ["", ";", " ", ":", "-", "T", "?", "%"] {
+                    li += 1;
+                    if li % n != sh || (li / n) % stride != phase % stride {
+                        continue;
+                    }
+                    let mut f = String::new();
+                    for j in 0..ntok {
+                        let t = match var {
+                            0 => cyc[j % 6],
+                            1 => cyc[j % 9],
+                            _ => cyc[(j * 2 + 1) % 9],
+                        };
+                        f.push_str(t);
+                        if j + 1 < ntok {
+                            f.push(seps[j % 9]);
+                        }
+                    }
+                    f.push_str(last_sep);
+                    let e = Epoch::from_duration(mk(3_786_825_600_123_456_789 + li as i128 * 86_461_000_000_007), TimeScale::UTC);
+                    let ff = f.clone();
+                    let out = guard(move || match Format::from_str(&ff) {
+                        Ok(fm) => format!("{}", Formatter::new(e, fm)),
+                        Err(_) => String::new(),
+                    })
+                    .unwrap_or_default();
+                    let base = if out.is_empty() { "2020-01-02 03:04:05 2020-01-02 03:04:05 2020-01-02 03".to_string() } else { out };
+                    rep.class("fmt/table-full");
+                    feed(rep, &base, &f, "fmt/table-full", true);
+                    let cut = base.trim_end_matches(|c: char| !c.is_ascii_digit()).to_string();
+                    for tailc in ["", "x", ":", "-", "/", ".", "T", "+", " ", "9", ";", "\u{e9}", "?", "%", "Z", " UTC", ";;", "x9"] {
+                        feed(rep, &format!("{cut}{tailc}"), &f, "fmt/table-full", true);
+                        feed(rep, &format!("{base}{tailc}"), &f, "fmt/table-full", true);
+                    }
+                    for c in 1..base.len().min(12) {
+                        if base.is_char_boundary(base.len() - c) {
+                            feed(rep, &base[..base.len() - c], &f, "fmt/table-full", true);
+                        }
+                    }
                 }
             }
         }
